@@ -47,10 +47,95 @@ type Decl struct {
 }
 
 type skel struct {
-	fset *token.FileSet
-	rel  string
-	sb   strings.Builder
-	lits []Lit
+	fset   *token.FileSet
+	rel    string
+	sb     strings.Builder
+	lits   []Lit
+	locals map[string]bool   // identifiers declared inside the declaration (params, :=, var, range)
+	rename map[string]string // local identifier -> canonical name, by first occurrence
+	noRen  map[*ast.Ident]bool
+}
+
+// collectLocals finds the identifiers a function declares itself; they are α-renamed in the
+// skeleton so that renaming a local variable is not a change.  Selector fields and struct keys are
+// never renamed.
+func (s *skel) collectLocals(n ast.Node) {
+	s.locals, s.rename, s.noRen = map[string]bool{}, map[string]string{}, map[*ast.Ident]bool{}
+	fd, ok := n.(*ast.FuncDecl)
+	if !ok {
+		return
+	}
+	addFields := func(fl *ast.FieldList) {
+		if fl == nil {
+			return
+		}
+		for _, f := range fl.List {
+			for _, nm := range f.Names {
+				if nm.Name != "_" {
+					s.locals[nm.Name] = true
+				}
+			}
+		}
+	}
+	addFields(fd.Recv)
+	addFields(fd.Type.Params)
+	addFields(fd.Type.Results)
+	ast.Inspect(fd, func(m ast.Node) bool {
+		switch x := m.(type) {
+		case *ast.AssignStmt:
+			if x.Tok == token.DEFINE {
+				for _, l := range x.Lhs {
+					if id, ok := l.(*ast.Ident); ok && id.Name != "_" {
+						s.locals[id.Name] = true
+					}
+				}
+			}
+		case *ast.RangeStmt:
+			if x.Tok == token.DEFINE {
+				for _, e := range []ast.Expr{x.Key, x.Value} {
+					if id, ok := e.(*ast.Ident); ok && id.Name != "_" {
+						s.locals[id.Name] = true
+					}
+				}
+			}
+		case *ast.ValueSpec:
+			for _, nm := range x.Names {
+				if nm.Name != "_" {
+					s.locals[nm.Name] = true
+				}
+			}
+		case *ast.FuncLit:
+			addFields(x.Type.Params)
+			addFields(x.Type.Results)
+		case *ast.SelectorExpr:
+			s.noRen[x.Sel] = true
+		case *ast.KeyValueExpr:
+			if id, ok := x.Key.(*ast.Ident); ok {
+				s.noRen[id] = true
+			}
+		case *ast.LabeledStmt:
+			s.noRen[x.Label] = true
+		case *ast.BranchStmt:
+			if x.Label != nil {
+				s.noRen[x.Label] = true
+			}
+		}
+		return true
+	})
+	// the function's own name is not a local
+	s.noRen[fd.Name] = true
+}
+
+func (s *skel) ident(id *ast.Ident) string {
+	if s.locals == nil || !s.locals[id.Name] || s.noRen[id] {
+		return id.Name
+	}
+	if r, ok := s.rename[id.Name]; ok {
+		return r
+	}
+	r := fmt.Sprintf("$%d", len(s.rename)+1)
+	s.rename[id.Name] = r
+	return r
 }
 
 func allBasic(elts []ast.Expr) (bool, bool) {
@@ -127,7 +212,7 @@ func (s *skel) walk(n ast.Node) {
 		s.sb.WriteString("(" + name)
 		switch x := n.(type) {
 		case *ast.Ident:
-			s.sb.WriteString(" " + x.Name)
+			s.sb.WriteString(" " + s.ident(x))
 		case *ast.BinaryExpr:
 			s.sb.WriteString(" " + x.Op.String())
 		case *ast.UnaryExpr:
@@ -168,6 +253,7 @@ func (s *skel) walk(n ast.Node) {
 
 func skeletonOf(fset *token.FileSet, rel string, n ast.Node) (string, []Lit) {
 	s := &skel{fset: fset, rel: rel}
+	s.collectLocals(n)
 	s.walk(n)
 	return s.sb.String(), s.lits
 }
